@@ -6,13 +6,14 @@ sys.path.insert(0, ROOT); sys.path.insert(0, os.path.join(ROOT, "checks"))
 
 HOOK_COMMITS = []   # filled when hook commits exist in /repo
 NOT_APPLICABLE = {} # pid -> reason, for properties with no check module
+READY = ["C02", "C09", "C14", "C15"]   # check modules that are finished (others may be under construction)
 
 props = [json.loads(l) for l in open(os.path.join(ROOT, "properties.jsonl"))]
 checks = []
 na = []
 for p in props:
     pid = p["id"]
-    if not os.path.exists(os.path.join(ROOT, "checks", pid + ".py")):
+    if pid not in READY or not os.path.exists(os.path.join(ROOT, "checks", pid + ".py")):
         na.append({"property_id": pid, "reason": NOT_APPLICABLE.get(pid, "no solver-decided check built yet for this property (construction order: DESIGN.md section 6)")})
         continue
     mod = importlib.import_module(pid)
